@@ -8,7 +8,7 @@ to two redirections (alone and as last pipeline stage) are run in one real shell
 process with a probe after every command; the probe (a helper started by the shell) records the shell's own
 descriptor table from /proc/<ppid>/fd and every helper records the descriptors it was started with.
 E4 (fault enumeration): EVERY soft RLIMIT_NOFILE value 4..40 x pipeline templates of 1..6 stages (plain, with
-output capture, with here-string): the limit is lowered with the shell's own `ulimit -n`, the pipeline runs, the
+output capture, with a here-string on every stage position, capture + here-string): the limit is lowered with the shell's own `ulimit -n`, the pipeline runs, the
 limit is raised again. Oracle: the shell's descriptor set never changes, every started program has exactly
 descriptors 0,1,2, and when pipe creation fails the pipeline fails with a non-zero status, nothing hangs and the
 following command works."""
@@ -79,8 +79,11 @@ for n in range(1, 7):
     PIPE_TEMPLATES.append(('plain-%d' % n, ' | '.join('vh-argv s%d' % i for i in range(n)), n))
 for n in range(1, 5):
     PIPE_TEMPLATES.append(('capture-%d' % n, 'vh-argv2 $(%s)' % ' | '.join(['vh-emit 0'] + ['vh-io c%d' % i for i in range(1, n)]), n))
+for n in range(1, 5):
+    for k in range(n):      # the here-string (one more pipe, created just before that stage is started) on every stage
+        PIPE_TEMPLATES.append(('herestring-%d-at-%d' % (n, k), ' | '.join(('vh-io h%d <<< w' % i) if i == k else ('vh-argv s%d' % i) for i in range(n)), n))
 for n in range(1, 4):
-    PIPE_TEMPLATES.append(('herestring-%d' % n, ' | '.join(['vh-io h0 <<< w'] + ['vh-argv s%d' % i for i in range(1, n)]), n))
+    PIPE_TEMPLATES.append(('capture-herestring-%d' % n, 'vh-argv2 $(%s)' % ' | '.join(['vh-emit 0'] + ['vh-io c%d' % i for i in range(1, n - 1)] + (['vh-io last <<< w'] if n > 1 else [])), n))
 
 
 def run_limit(job):
